@@ -167,8 +167,11 @@ CORPUS = [
     ("inner-shadows-fn", 'do g() start return 5 end\ndo f(p) start do g(a) start return a end return g(p) end\nshout(f(2))\nshout(g())\n'),
     # mutation through subscripts, activations, captured arrays (C04 / C05 shapes)
     ("nested-mutation", 'make a get [[1,2],[3,4]]\na[1][0] get 9\na[0].push(5)\nshout(a)\nmake b get [[[1],[2]],[[3],[4]]]\n'
-                        'b[1][0].push(7)\nb[0][1][0] get 8\nshout(b[1][0].pop())\nb[1].reverse()\nshout(b)\nb[0][0].reverse()\n'
-                        'shout(b[1][1].push(6))\nshout(b)\nmake c get b\nc[0][0].push(0)\nshout(b)\nshout(c)\n'),
+                        'b[1][0].push(7)\nshout(b)\nb[0][1][0] get 8\nshout(b)\nshout(b[0][1].pop())\nshout(b)\nb[1].reverse()\nshout(b)\n'
+                        'b[0][1].push(5)\nb[0][1].push(6)\nb[0][1].reverse()\nshout(b)\nshout(b[1][1].push(6))\nshout(b)\n'
+                        'make c get b\nc[0][0].push(0)\nshout(b)\nshout(c)\n'
+                        'do spread(cells, n) start\n  make i get 0\n  jasi (i small pass n) start\n    cells[0][1].push(i)\n    i get i add 1\n  end\n'
+                        '  return cells\nend\nshout(spread(c, 2))\nshout(c)\n'),
     ("captured-array-same-name", 'make a get [[1],[2]]\ndo set_it() start a[0][0] get 9 a[1].push(3) end\n'
                                  'do caller() start make a get [[5],[6]] set_it() shout(a) a[0][0] get 7 shout(a) end\ncaller()\nshout(a)\n'),
     ("activation-locals", 'do rec(n) start\n  make l get [n]\n  if to say (n pass 0) start rec(n minus 1) end\n  l.push(n times 10)\n'
@@ -345,6 +348,9 @@ STATIC_LINES = ['shout(zz_undeclared)', 'zz_undeclared get 1', 'comot', 'next', 
                 'do zz_f(p) start return p.find() end', 'do zz_f(p) start return p.replace("a") end', 'do zz_f(p) start return p.join() end',
                 'do zz_f(p) start return p.nope(1, 2) end\nshout(1)', 'do zz_f(p) start return p.slice(1, 2, 3) end',
                 'do zz_f(p) start return p[0].slice() end', 'do zz_f(p) start p.push(1, 2) end',
+                # ... and on a receiver expression that has no inferable type at all (a call of a call result)
+                'do zz_g() start return [1] end\nzz_g()().push()', 'do zz_g() start return "s" end\nshout(zz_g()().slice(1))',
+                'do zz_g() start return [1] end\nshout(zz_g()().len())',
                 # a method of another family on a receiver of every statically known type
                 'make zz_h get null\nshout(zz_h.to_uppercase())', 'make zz_b get true\nshout(zz_b.len())',
                 'make zz_k get 1\nshout(zz_k.len())', 'make zz_s get "s"\nshout(zz_s.sqrt())', 'make zz_r get [1]\nshout(zz_r.trim())',
